@@ -75,7 +75,7 @@ def run(ck, prog, tier, load):
             if s["rv"]["k"] == "agg" and s["rv"].get("adt") == "actix_http::header::map::Value":
                 ck.ob("C18-a.value-ctor", b.npath.split("header::map::")[-1], b.npath.endswith("map::Value::one") or "::tests::" in b.npath or b.npath.endswith("Clone>::clone"), b, bb, "Value constructed in %s (only Value::one, with one element)" % b.npath, nontrivial=False)
     one = prog.one(r"^actix_http::header::map::Value::one$")
-    ok = any(True for _ in one.calls(r"SmallVec.*::push$|smallvec::.*from_buf|SmallVec.*::from_|smallvec::SmallVec<A>::push$")) or any(any(r[0] == "arg" and r[2] == "val" for r in e_roots(one.rv_expr(s["rv"], 5))) for bb, i, s in one.assigns())
+    ok = any(True for _ in one.calls(r"SmallVec.*::push$|smallvec::.*from_buf|SmallVec.*::from_|smallvec::SmallVec<A>::push$")) or any(any(r[0] == "arg" for r in e_roots(one.rv_expr(s["rv"], 5))) for bb, i, s in one.assigns())
     ck.ob("C18-a.one-is-nonempty", "Value::one", ok, one, None, "Value::one stores its argument (a one-element list)")
     # retain closure
     rt = prog.one(r"^actix_http::header::map::HeaderMap::retain$")
